@@ -6,7 +6,66 @@ From Coq.Strings Require Import Byte.
 From GI Require Import Lib.Bytes Gen.TxtarConsts Txtar.Txtar Txtar.TxtarFacts.
 Import ListNotations.
 
+Theorem C03_parse_format_parse : forall s, parse (format (parse s)) = parse s.
+Proof. exact parse_format_parse. Qed.
+Print Assumptions C03_parse_format_parse.
+
+Theorem C03_parse_format_wf : forall a, wf_archive a = true -> parse (format a) = a.
+Proof. exact parse_format_wf. Qed.
+Print Assumptions C03_parse_format_wf.
+
+Theorem C03_parse_wf_archive : forall s, wf_archive (parse s) = true.
+Proof. exact parse_wf_archive. Qed.
+Print Assumptions C03_parse_wf_archive.
+
+Theorem C03_parse_data_nl : forall s,
+  fix_nl (comment (parse s)) = comment (parse s) /\
+  Forall (fun nd => fix_nl (snd nd) = snd nd) (files (parse s)).
+Proof. exact parse_data_nl. Qed.
+Print Assumptions C03_parse_data_nl.
+
+Theorem C03_parse_names_wf : forall s,
+  Forall (fun nd => wf_name (fst nd) = true) (files (parse s)).
+Proof. exact parse_names_wf. Qed.
+Print Assumptions C03_parse_names_wf.
+
+Theorem C03_parse_ref : forall s, ~ In CR s -> parse s = ref_parse s.
+Proof. exact parse_ref_In. Qed.
+Print Assumptions C03_parse_ref.
+
 Theorem C03_crlf_marker_like_lf : forall l,
   last_byte l <> Some CR -> marker_line (l ++ [CR; NL]) = marker_line (l ++ [NL]).
 Proof. exact marker_line_crlf. Qed.
 Print Assumptions C03_crlf_marker_like_lf.
+
+Theorem C03_crlf_like_lf : forall pre l post,
+  pre = [] \/ last_byte pre = Some NL ->
+  ~ In NL l -> last_byte l <> Some CR ->
+  map fst (files (parse (pre ++ l ++ [CR; NL] ++ post)))
+    = map fst (files (parse (pre ++ l ++ [NL] ++ post)))
+  /\ (marker_line (l ++ [NL]) <> None ->
+      parse (pre ++ l ++ [CR; NL] ++ post) = parse (pre ++ l ++ [NL] ++ post)).
+Proof. exact crlf_like_lf. Qed.
+Print Assumptions C03_crlf_like_lf.
+
+Theorem C03_crlf_marker_recognised : forall pre l post n,
+  pre = [] \/ last_byte pre = Some NL ->
+  ~ In NL l -> marker_core l = Some n ->
+  marker_line (l ++ [CR; NL]) = Some n /\ marker_line (l ++ [NL]) = Some n /\
+  parse (pre ++ l ++ [CR; NL] ++ post) = parse (pre ++ l ++ [NL] ++ post) /\
+  In n (map fst (files (parse (pre ++ l ++ [CR; NL] ++ post)))).
+Proof. exact crlf_marker_like_lf. Qed.
+Print Assumptions C03_crlf_marker_recognised.
+
+Theorem C03_crlf_nonmarker_local : forall pre l post,
+  pre = [] \/ last_byte pre = Some NL ->
+  ~ In NL l -> last_byte l <> Some CR -> marker_line (l ++ [NL]) = None ->
+  exists ts1 p q ts2,
+    comment (parse (pre ++ l ++ [CR; NL] ++ post))
+      :: map snd (files (parse (pre ++ l ++ [CR; NL] ++ post)))
+      = ts1 ++ fix_nl (p ++ (l ++ [CR; NL]) ++ q) :: ts2 /\
+    comment (parse (pre ++ l ++ [NL] ++ post))
+      :: map snd (files (parse (pre ++ l ++ [NL] ++ post)))
+      = ts1 ++ fix_nl (p ++ (l ++ [NL]) ++ q) :: ts2.
+Proof. exact crlf_nonmarker_local. Qed.
+Print Assumptions C03_crlf_nonmarker_local.
